@@ -1,6 +1,398 @@
-//! Monitor for C44 (see /verif/DESIGN.md §5 C44).
-use vcommon::Args;
+//! C44 — multi-market swaps follow the declared path and move recorded balances.
+//!
+//! Dedicated world: three real tokens (SOL, USDC, WBTC) and five markets
+//! (A: SOL-USDC, B: WBTC-USDC, C: SOL-WBTC, D: SOL-USDC with another index, P: SOL-SOL pure).
+//! Workload: swap orders (paths of length 0..=10, valid and deliberately invalid: duplicates, pure
+//! market steps, broken chains, wrong output token), deposits and withdrawals with swap paths (into /
+//! out of the current market), executed through the real instructions. Oracle: an independent path
+//! validator at creation; at execution the `SwapExecuted` events and the pre/post market accounts.
+use crate::world::{
+    exchange::{load, OrderKind, OrderReq},
+    *,
+};
+use anchor_lang::{prelude::Pubkey, AnchorDeserialize, Discriminator};
+use gmsol_store::{
+    events::SwapExecuted,
+    states::{common::action::Action, Market, Order},
+};
+use gmsol_utils::action::ActionState;
+use hostsvm::token;
+use std::collections::BTreeSet;
+use vcommon::{json, monitor::run_shards, serde_json, Args, Monitor, Rng};
 
-pub fn run(_args: &Args) -> Option<i32> {
-    None
+const E18: u128 = 1_000_000_000_000_000_000;
+
+struct W44 {
+    w: World,
+    user: Pubkey,
+    sol: Pubkey,
+    usdc: Pubkey,
+    wbtc: Pubkey,
+}
+
+fn build(seed: u64, shard: u64) -> W44 {
+    let mut rng = Rng::derive(seed, shard, 0x44);
+    let mut w = World::bootstrap_store();
+    w.bootstrap_oracle();
+    let btc = w.add_token("BTC", 8, 2, true);
+    let sol = w.add_token("SOL", 9, 4, false);
+    let usdc = w.add_token("USDC", 6, 6, false);
+    let wbtc = w.add_token("WBTC", 8, 2, false);
+    let eth = w.add_token("ETH", 8, 3, true);
+    w.add_market(sol, sol, usdc); // A 0
+    w.add_market(btc, wbtc, usdc); // B 1
+    w.add_market(btc, sol, wbtc); // C 2
+    w.add_market(eth, sol, usdc); // D 3
+    w.add_market(sol, sol, sol); // P 4 (pure)
+    for (t, p) in [(btc, 60_000u128), (sol, 150), (usdc, 1), (wbtc, 60_000), (eth, 3_000)] {
+        w.set_price(t, p * E18 - p * E18 / 10_000, p * E18, p * E18 + p * E18 / 10_000).expect("price");
+    }
+    let user = w.add_user("trader");
+    let lp = w.add_user("lp");
+    let (sol_m, usdc_m, wbtc_m) = (w.tokens[sol].mint, w.tokens[usdc].mint, w.tokens[wbtc].mint);
+    for u in [user, lp] {
+        token::fund_ata(&mut w.svm, &u, &sol_m, 10_000_000 * 1_000_000_000);
+        token::fund_ata(&mut w.svm, &u, &usdc_m, 1_000_000_000 * 1_000_000);
+        token::fund_ata(&mut w.svm, &u, &wbtc_m, 100_000 * 100_000_000);
+    }
+    // fees / impact flavours
+    for m in 0..4 {
+        if rng.bool() {
+            let f = rng.range_u128(0, 5) * UNIT / 1000;
+            let _ = w.set_market_config(m, "swap_fee_factor_for_positive_impact", f);
+            let _ = w.set_market_config(m, "swap_fee_factor_for_negative_impact", f);
+        }
+        if rng.bool() {
+            let neg = rng.range_u128(1, 50) * UNIT / 10_000_000_000;
+            let _ = w.set_market_config(m, "swap_impact_negative_factor", neg);
+            let _ = w.set_market_config(m, "swap_impact_positive_factor", neg / 2);
+        }
+    }
+    // liquidity
+    let amounts: [(u64, u64); 5] = [
+        (20_000 * 1_000_000_000, 3_000_000 * 1_000_000),
+        (50 * 100_000_000, 3_000_000 * 1_000_000),
+        (20_000 * 1_000_000_000, 50 * 100_000_000),
+        (20_000 * 1_000_000_000, 3_000_000 * 1_000_000),
+        (10_000 * 1_000_000_000, 10_000 * 1_000_000_000),
+    ];
+    for (m, (l, s)) in amounts.iter().enumerate() {
+        let d = w.create_deposit(lp, m, *l, *s, None, None, &[], &[], 0).expect("lp deposit");
+        w.execute_deposit(d, true).expect("lp deposit exec");
+        let _ = w.close_deposit(lp, d);
+    }
+    W44 { w, user, sol: sol_m, usdc: usdc_m, wbtc: wbtc_m }
+}
+
+/// Independent re-statement of the path rules: returns the output token if the path is acceptable.
+fn reference_path(w: &World, path: &[usize], token_in: Pubkey) -> Option<Pubkey> {
+    let mut seen = BTreeSet::new();
+    let mut cur = token_in;
+    for m in path {
+        if !seen.insert(*m) {
+            return None; // duplicate market
+        }
+        let mi = &w.markets[*m];
+        let (l, s) = (w.tokens[mi.long].mint, w.tokens[mi.short].mint);
+        if l == s {
+            return None; // no-op step
+        }
+        cur = if cur == l {
+            s
+        } else if cur == s {
+            l
+        } else {
+            return None;
+        };
+    }
+    Some(cur)
+}
+
+fn balances(w: &World, svm: &hostsvm::Svm, m: usize) -> (u64, u64) {
+    load::<Market>(svm, &w.markets[m].market).map(|x| (x.state().long_token_balance_raw(), x.state().short_token_balance_raw())).unwrap_or((0, 0))
+}
+
+fn gen_path(rng: &mut Rng, x: &W44, token_in: Pubkey) -> Vec<usize> {
+    let w = &x.w;
+    let len = match rng.below(10) {
+        0 => 0,
+        1..=5 => rng.range(1, 3),
+        6..=8 => rng.range(3, 6),
+        _ => rng.range(6, 11),
+    } as usize;
+    let mut path = vec![];
+    let mut cur = token_in;
+    for _ in 0..len {
+        // markets that can take `cur`
+        let cands: Vec<usize> = (0..4)
+            .filter(|m| {
+                let mi = &w.markets[*m];
+                w.tokens[mi.long].mint == cur || w.tokens[mi.short].mint == cur
+            })
+            .collect();
+        let m = if rng.chance(1, 15) { rng.below(5) as usize } else { *rng.pick(&cands) };
+        // mostly avoid duplicates (a valid long path needs distinct markets), sometimes keep them
+        if path.contains(&m) && !rng.chance(1, 6) {
+            break;
+        }
+        path.push(m);
+        let mi = &w.markets[m];
+        let (l, s) = (w.tokens[mi.long].mint, w.tokens[mi.short].mint);
+        cur = if cur == l { s } else { l };
+    }
+    path
+}
+
+fn run_shard(args: &Args, shard: u64, m: &mut Monitor) {
+    let mut rng = Rng::derive(args.seed, shard, 0x4401);
+    let mut x = build(args.seed, shard);
+    let rounds = args.scale(120, 500);
+    let tokens = [x.sol, x.usdc, x.wbtc];
+    for round in 0..rounds {
+        if rng.chance(1, 6) {
+            x.w.svm.warp(rng.range_i64(1, 10));
+        }
+        // keep feeds fresh
+        for t in 0..x.w.tokens.len() {
+            let p = [60_000u128, 150, 1, 60_000, 3_000][t] * E18;
+            let _ = x.w.set_price(t, p - p / 10_000, p, p + p / 10_000);
+        }
+        let token_in = *rng.pick(&tokens);
+        let path = gen_path(&mut rng, &x, token_in);
+        let expect_out = reference_path(&x.w, &path, token_in);
+        // declared output: mostly what the path yields, sometimes another token
+        let declared_out = match expect_out {
+            Some(o) if !rng.chance(1, 8) => o,
+            _ => *rng.pick(&tokens),
+        };
+        // a swap order's market account is the last market of the path; output side within it
+        let Some(&last) = path.last() else {
+            m.count("empty_path_skipped");
+            // empty path: swap order without a path is not expressible; try it anyway for coverage
+            let mut req = OrderReq::new(OrderKind::MarketSwap, 0, true, true);
+            req.initial_collateral_token = Some(token_in);
+            req.initial_collateral_delta_amount = 1_000_000;
+            let r = x.w.create_order(x.user, &req);
+            m.eval();
+            if let Ok(o) = r {
+                // creation with an empty path: token_in must already be the output token
+                let out = x.w.tokens[x.w.markets[0].long].mint;
+                if token_in != out {
+                    m.violation("C44:create:empty_path_accepted_with_different_tokens", json!({"shard": shard, "round": round}));
+                }
+                let _ = x.w.close_order(x.user, o);
+            }
+            continue;
+        };
+        let lm = &x.w.markets[last];
+        let (ll, ls) = (x.w.tokens[lm.long].mint, x.w.tokens[lm.short].mint);
+        let out_is_long = if declared_out == ll {
+            true
+        } else if declared_out == ls {
+            false
+        } else {
+            rng.bool()
+        };
+        let real_declared_out = if out_is_long { ll } else { ls };
+        let mut req = OrderReq::new(OrderKind::MarketSwap, last, true, out_is_long);
+        req.initial_collateral_token = Some(token_in);
+        let amount = match token_in {
+            t if t == x.sol => rng.log_u64(200 * 1_000_000_000).max(1_000),
+            t if t == x.usdc => rng.log_u64(30_000 * 1_000_000).max(1_000),
+            _ => rng.log_u64(100_000_000).max(1_000),
+        };
+        req.initial_collateral_delta_amount = amount;
+        req.swap_path = path.iter().map(|i| x.w.markets[*i].market_token).collect();
+        let pre_create = x.w.svm.clone();
+        let created = x.w.create_order(x.user, &req);
+        m.eval();
+        let path_ok = expect_out == Some(real_declared_out) && path.len() <= 10;
+        let wit = |what: &str, extra: serde_json::Value| {
+            json!({"shard": shard, "round": round, "what": what, "path": path, "token_in": format!("{token_in}"),
+                   "declared_out": format!("{real_declared_out}"), "amount": amount, "extra": extra})
+        };
+        let order = match created {
+            Err(_) => {
+                m.count(if path_ok { "create_rejected_valid_path" } else { "create_rejected_invalid_path" });
+                if !path_ok {
+                    m.nontrivial(format!("reject:{}:{:?}", path.len(), expect_out.is_some()).as_bytes());
+                }
+                continue;
+            }
+            Ok(o) => o,
+        };
+        let _ = pre_create;
+        if !path_ok {
+            let class = if expect_out.is_none() { "invalid_path_accepted_at_creation" } else { "wrong_output_token_accepted_at_creation" };
+            m.violation(&format!("C44:create:{class}"), wit("reference validator rejects this path", json!({"expect_out": expect_out.map(|p| p.to_string())})));
+            continue;
+        }
+        m.count("create_ok");
+        // --- execute
+        let pre = x.w.svm.clone();
+        let throw = rng.chance(1, 3);
+        let res = x.w.execute_order(order, throw);
+        let state = load::<Order>(&x.w.svm, &order).and_then(|o| o.header().action_state().ok());
+        match (&res, state) {
+            (Ok(meta), Some(ActionState::Completed)) => {
+                m.count("swap_completed");
+                m.nontrivial(format!("exec:{}:{}", path.len(), path.iter().map(|p| p.to_string()).collect::<String>()).as_bytes());
+                m.max("max_path_len_executed", path.len() as u64);
+                // decode SwapExecuted events in order
+                let evs: Vec<SwapExecuted> = meta
+                    .events
+                    .iter()
+                    .filter(|(p, d)| *p == STORE_PID && d.len() > 8 && d[..8] == *SwapExecuted::DISCRIMINATOR)
+                    .filter_map(|(_, d)| SwapExecuted::deserialize(&mut &d[8..]).ok())
+                    .collect();
+                let ev_markets: Vec<Pubkey> = evs.iter().map(|e| e.market_token).collect();
+                let declared: Vec<Pubkey> = path.iter().map(|i| x.w.markets[*i].market_token).collect();
+                if ev_markets != declared {
+                    m.violation("C44:execute:hops_differ_from_declared_path", wit("SwapExecuted events vs declared path", json!({"events": ev_markets.iter().map(|p| p.to_string()).collect::<Vec<_>>()})));
+                    continue;
+                }
+                // chain tokens and amounts
+                let mut cur_token = token_in;
+                let mut cur_amount = amount as u128;
+                let mut deltas: std::collections::BTreeMap<(usize, bool), i128> = Default::default();
+                let mut chain_ok = true;
+                for (hop, (e, mi)) in evs.iter().zip(path.iter()).enumerate() {
+                    let mk = &x.w.markets[*mi];
+                    let (l, s) = (x.w.tokens[mk.long].mint, x.w.tokens[mk.short].mint);
+                    let in_long = e.report.params().is_token_in_long();
+                    let tin = if in_long { l } else { s };
+                    let tout = if in_long { s } else { l };
+                    let ain = *e.report.params().token_in_amount();
+                    let aout = *e.report.token_out_amount();
+                    if tin != cur_token || ain != cur_amount {
+                        chain_ok = false;
+                        m.violation("C44:execute:hop_does_not_convert_previous_output", wit("token/amount chain broken", json!({"hop": hop, "expected_token": cur_token.to_string(), "hop_token_in": tin.to_string(), "expected_amount": cur_amount.to_string(), "hop_amount_in": ain.to_string()})));
+                        break;
+                    }
+                    *deltas.entry((*mi, in_long)).or_default() += ain as i128;
+                    *deltas.entry((*mi, !in_long)).or_default() -= aout as i128;
+                    cur_token = tout;
+                    cur_amount = aout;
+                }
+                if !chain_ok {
+                    continue;
+                }
+                if cur_token != real_declared_out {
+                    m.violation("C44:execute:ended_in_other_token", wit("", json!({"ended": cur_token.to_string()})));
+                }
+                // recorded balances of every market: exactly the hop movements
+                for mi in 0..x.w.markets.len() {
+                    let (pl, ps) = balances(&x.w, &pre, mi);
+                    let (nl, ns) = balances(&x.w, &x.w.svm, mi);
+                    let pure = mi == 4;
+                    let dl = deltas.get(&(mi, true)).copied().unwrap_or(0);
+                    let ds = deltas.get(&(mi, false)).copied().unwrap_or(0);
+                    let (el, es) = if pure { (dl + ds, 0) } else { (dl, ds) };
+                    if nl as i128 - pl as i128 != el || ns as i128 - ps as i128 != es {
+                        m.violation(
+                            "C44:execute:recorded_balance_movement_differs_from_swapped_amounts",
+                            wit("", json!({"market": mi, "delta_long": (nl as i128 - pl as i128).to_string(), "expected_long": el.to_string(), "delta_short": (ns as i128 - ps as i128).to_string(), "expected_short": es.to_string()})),
+                        );
+                    }
+                }
+                // the escrow received exactly the final amount
+                let esc = token::ata(&order, &real_declared_out);
+                let got = token::token_amount(&x.w.svm, &esc).unwrap_or(0) as i128 - token::token_amount(&pre, &esc).unwrap_or(0) as i128;
+                let expected_escrow = if real_declared_out == token_in { cur_amount as i128 - amount as i128 } else { cur_amount as i128 };
+                if got != expected_escrow {
+                    m.violation("C44:execute:payout_differs_from_last_hop_output", wit("", json!({"escrow_delta": got.to_string(), "expected": expected_escrow.to_string()})));
+                }
+                if m.wants_sample() && path.len() >= 3 {
+                    m.sample(json!({"path": path, "token_in": token_in.to_string(), "amount_in": amount, "amount_out": cur_amount.to_string(), "hops": evs.len()}));
+                }
+            }
+            (Ok(_), Some(ActionState::Cancelled)) => {
+                m.count("swap_soft_failed");
+                for mi in 0..x.w.markets.len() {
+                    if balances(&x.w, &pre, mi) != balances(&x.w, &x.w.svm, mi) {
+                        m.violation("C44:execute:failed_swap_moved_recorded_balances", wit("", json!({"market": mi})));
+                    }
+                }
+            }
+            (Err(_), _) => m.count("swap_hard_failed"),
+            _ => m.count("swap_other_outcome"),
+        }
+        let _ = x.w.close_order(x.user, order);
+
+        // --- deposits / withdrawals with paths (into / out of the current market)
+        if rng.chance(1, 3) {
+            let market = rng.below(4) as usize;
+            let mk = x.w.markets[market].clone();
+            let (l, s) = (x.w.tokens[mk.long].mint, x.w.tokens[mk.short].mint);
+            let pay = *rng.pick(&tokens);
+            let lp_path = gen_path(&mut rng, &x, pay);
+            let ok = reference_path(&x.w, &lp_path, pay) == Some(l) && lp_path.len() <= 10;
+            let mts: Vec<Pubkey> = lp_path.iter().map(|i| x.w.markets[*i].market_token).collect();
+            let amt = if pay == x.sol { 1_000_000_000 } else if pay == x.usdc { 150_000_000 } else { 250_000 };
+            let r = x.w.create_deposit(x.user, market, amt, 0, Some(pay), None, &mts, &[], 0);
+            m.eval();
+            let _ = s;
+            match r {
+                Ok(d) => {
+                    if !ok {
+                        m.violation("C44:create:invalid_deposit_path_accepted", json!({"shard": shard, "round": round, "market": market, "path": lp_path, "pay": pay.to_string()}));
+                    } else {
+                        m.count("deposit_with_path_created");
+                        let pre = x.w.svm.clone();
+                        if x.w.execute_deposit(d, false).is_ok() {
+                            let st = load::<gmsol_store::states::Deposit>(&x.w.svm, &d).and_then(|o| o.header().action_state().ok());
+                            if st == Some(ActionState::Completed) {
+                                m.count("deposit_with_path_completed");
+                                m.nontrivial(format!("dep:{}:{}", market, lp_path.len()).as_bytes());
+                                // the markets on the path that are not the current market end with
+                                // exactly zero net token creation: Σ over all markets of Δ recorded
+                                // balance per token == tokens that entered the vault
+                                for t in tokens {
+                                    let mut d_recorded: i128 = 0;
+                                    for mi in 0..x.w.markets.len() {
+                                        let mkx = &x.w.markets[mi];
+                                        let (ml, ms) = (x.w.tokens[mkx.long].mint, x.w.tokens[mkx.short].mint);
+                                        let (pl, ps) = balances(&x.w, &pre, mi);
+                                        let (nl, ns) = balances(&x.w, &x.w.svm, mi);
+                                        if ml == t {
+                                            d_recorded += nl as i128 - pl as i128;
+                                        }
+                                        if ms == t && ms != ml {
+                                            d_recorded += ns as i128 - ps as i128;
+                                        }
+                                    }
+                                    let v = x.w.vault(&t);
+                                    let d_vault = token::token_amount(&x.w.svm, &v).unwrap_or(0) as i128 - token::token_amount(&pre, &v).unwrap_or(0) as i128;
+                                    if d_recorded != d_vault {
+                                        m.violation("C44:execute:deposit_swap_recorded_balances_differ_from_vault_movement", json!({"shard": shard, "round": round, "token": t.to_string(), "recorded": d_recorded.to_string(), "vault": d_vault.to_string(), "path": lp_path}));
+                                    }
+                                }
+                            }
+                        }
+                    }
+                    let _ = x.w.close_deposit(x.user, d);
+                }
+                Err(_) => m.count(if ok { "deposit_path_rejected_valid" } else { "deposit_path_rejected_invalid" }),
+            }
+        }
+    }
+}
+
+pub fn run(args: &Args) -> Option<i32> {
+    let mut mon = Monitor::new(
+        args,
+        "world with 3 real tokens and 5 markets (one pure); swap orders with random paths of length 0..=10 (valid, \
+         duplicate markets, pure-market steps, broken chains, wrong declared output), plus deposits with swap paths; \
+         real create/execute instructions in hostsvm; oracle = independent path validator at creation + SwapExecuted \
+         events and pre/post recorded balances at execution. non-trivial = a completed multi-hop swap / a rejected \
+         invalid path; distinct = the concrete market sequence",
+    );
+    mon.assume("swap orders' market account is the last market of the path (SDK convention)");
+    let shards = args.scale(32, 128);
+    let quiet = hostsvm::QuietStdout::new();
+    run_shards(&mut mon, args.threads, shards, |shard, m| run_shard(args, shard, m));
+    drop(quiet);
+    mon.require("swap_completed", 300);
+    mon.require("create_rejected_invalid_path", 100);
+    Some(mon.finish())
 }
